@@ -21,6 +21,8 @@ pub enum Entry {
     SendWith,
     SendAsync { suspend: u32 },
     Reserve,
+    /// Multi Arc kinds: `send_derived()` with an externally built `Arc`
+    SendDerived,
 }
 
 impl Entry {
@@ -30,6 +32,7 @@ impl Entry {
             Entry::SendWith => "send_with",
             Entry::SendAsync { .. } => "send_with_async",
             Entry::Reserve => "reserve+try_send_reserved",
+            Entry::SendDerived => "send_derived",
         }
     }
 }
@@ -102,7 +105,7 @@ pub fn prefill_id(i: u32) -> u32 {
     0x7F00 | (i + 1)
 }
 
-fn do_send(ch: &ChanArc, entry: Entry, id: u32) -> (bool, bool, bool) {
+pub fn do_send(ch: &ChanArc, entry: Entry, id: u32) -> (bool, bool, bool) {
     // returns (accepted, returned_intact, setter_invoked_on_reject)
     let outcome = match entry {
         Entry::Send => ch.send(id),
@@ -114,6 +117,7 @@ fn do_send(ch: &ChanArc, entry: Entry, id: u32) -> (bool, bool, bool) {
                 None => return (false, true, false),
             }
         }
+        Entry::SendDerived => ch.send_derived(id),
         Entry::Reserve => match ch.reserve() {
             None => SendOutcome::Rejected { returned_intact: true, setter_invoked: false },
             Some(slot) => {
